@@ -35,7 +35,7 @@ func tableFingerprint() string {
 }
 
 type concJob struct {
-	kind   int // 0 url.Parse, 1 url.ParseRef, 2 parser.Parse, 3 base.Parse(ref), 4 profile.Parse, 5 profile.ParseRef, 6 getters of the shared base
+	kind   int // 0 url.Parse, 1 url.ParseRef, 2 parser.Parse, 3 base.Parse(ref), 4 profile.Parse, 5 profile.ParseRef, 6 getters of the shared base, 7 constructors, 8 base.Parse(ref) then setters on the result, 9 base.Clone() then setters on the clone
 	parser int
 	base   int
 	input  string
@@ -89,6 +89,14 @@ func concRound(seed uint64, round int, workers int) (njobs int, diffs []string) 
 			concJob{kind: 3, base: r.Intn(len(bases)), input: in}, concJob{kind: 5, parser: r.Intn(4), base: r.Intn(len(bases)), input: in},
 			concJob{kind: 6, base: r.Intn(len(bases))})
 	}
+	// every goroutine may change what it owns: the value it got from resolving against a shared base, or its clone of it.
+	// Each shared base with each reference kind that copies most from the base, followed by every removal and one change.
+	for b := range bases {
+		for k, ref := range []string{"#top", "", "?x=1", "y"} {
+			jobs = append(jobs, concJob{kind: 8, base: b, input: ref, parser: b + k}, concJob{kind: 6, base: b})
+		}
+		jobs = append(jobs, concJob{kind: 9, base: b, parser: b}, concJob{kind: 6, base: b})
+	}
 	// The workers are long-lived goroutines and call the library directly: no goroutine per call, no
 	// formatting, channel or pool operation between calls (each of those is a synchronisation the race
 	// detector would honour, hiding a race between a first writing and a later reading access); results
@@ -119,6 +127,36 @@ func concRound(seed uint64, round int, workers int) (njobs int, diffs []string) 
 			res.u, res.err = parsers[3+j.parser%4].Parse(j.input)
 		case 5:
 			res.u, res.err = parsers[3+j.parser%4].ParseRef(b.Href(false), j.input)
+		case 8, 9:
+			var v *url.Url
+			if j.kind == 8 {
+				v, res.err = b.Parse(j.input)
+				if res.err != nil {
+					return res
+				}
+			} else {
+				v = b.Clone()
+			}
+			// the owner's own operations: removals first (they edit in place), then values, then the parameter list
+			v.SetHash("")
+			v.SetSearch("")
+			v.SetUsername("")
+			v.SetPassword("")
+			v.SetPort("")
+			switch j.parser % 3 {
+			case 0:
+				v.SetPathname("/own/path")
+				v.SetHash("own")
+			case 1:
+				v.SearchParams().Append("own", "1")
+				v.SearchParams().Sort()
+				v.SetHost("own.example:81")
+			default:
+				v.SetSearch("b=2&a=1")
+				v.SearchParams().Delete("a")
+				v.SetProtocol("https")
+			}
+			res.u = v
 		case 7:
 			// constructing parsers and profiles is part of using them from many goroutines: no constructor may write shared state
 			switch j.parser % 6 {
@@ -174,15 +212,23 @@ func concRound(seed uint64, round int, workers int) (njobs int, diffs []string) 
 	for w := range raw {
 		par[w] = make([]string, len(jobs))
 		for i := range jobs {
-			if jobs[i].kind < 6 {
+			if jobs[i].kind < 6 || jobs[i].kind >= 8 {
 				par[w][i] = show(jobs[i], raw[w][i])
 			}
 		}
 	}
+	// the shared bases were only read (and resolved against, and cloned): they are what they were
+	usedBases := bases
 	bases = mkBases()
+	for i := range bases {
+		was, is := Obs{Kind: "U", Fields: urlFields(bases[i])}.String(), Obs{Kind: "U", Fields: urlFields(usedBases[i])}.String()
+		if was != is && len(diffs) < 5 {
+			diffs = append(diffs, fmt.Sprintf("shared base %d changed while goroutines worked on values derived from it: %s -> %s", i, was, is))
+		}
+	}
 	seq := make([]string, len(jobs))
 	for i, j := range jobs {
-		if j.kind < 6 {
+		if j.kind < 6 || j.kind >= 8 {
 			seq[i] = show(j, exec(j))
 		}
 	}
